@@ -1,5 +1,6 @@
 from __future__ import annotations
 
+import concurrent.futures
 import math
 import sys
 import threading
@@ -173,6 +174,25 @@ def get_cancelled_exc_class() -> type[BaseException]:
 #
 # Private API
 #
+
+
+def future_outcome(future: concurrent.futures.Future[T_Retval]) -> T_Retval:
+    """
+    Wait for the future to complete and return its result or raise its exception.
+
+    Unlike :meth:`concurrent.futures.Future.result`, this does not test the truth value
+    of the exception (which made exceptions implementing ``__len__()`` or ``__bool__()``
+    vanish, with ``None`` returned in their place).
+
+    """
+    exc = future.exception()
+    if exc is not None:
+        try:
+            raise exc
+        finally:
+            del exc, future
+
+    return future.result()
 
 
 @contextmanager
